@@ -117,6 +117,26 @@ int snprintf(char *str, size_t size, const char *fmt, ...)
 	return (int)pos;
 }
 
+#ifdef LM_BYTE_MEMCPY
+/* memcpy as an explicit byte loop (n is a constant at every call site of the code under test):
+ * CBMC's built-in memcpy goes through array_copy/array_replace, i.e. the array theory, which costs
+ * minutes on records with 20/91-byte arrays; plain byte assignments at constant indices do not.
+ */
+void *memcpy(void *dst, const void *src, size_t n)
+{
+	char *d = dst;
+	const char *s = src;
+
+	for (size_t i = 0; i < LM_BYTE_MEMCPY; i++) {
+		if (i >= n)
+			break;
+		d[i] = s[i];
+	}
+	__CPROVER_assert(n <= LM_BYTE_MEMCPY, "memcpy model: size within LM_BYTE_MEMCPY");
+	return dst;
+}
+#endif
+
 size_t strlen(const char *s)
 {
 	for (unsigned int i = 0; i < SNPRINTF_MAX; i++)
